@@ -26,7 +26,14 @@ def write_then_forget(ctx: Ctx, chk, loss_only: bool = False) -> None:
     flushes = sb.flush_functions(ctx)
     chk.floor(rule, "flush functions", len(flushes), 1)
     for f in flushes:
-        fl = sb.analyse_flush(ctx, f)
+        try:
+            fl = sb.analyse_flush(ctx, f)
+        except sb.BatchedFlush as bf:
+            if loss_only:
+                raise
+            chk.instance(rule)
+            chk.refute(rule, f"{f.fq}::batched-release", f"the flush hands all buffered commands to the transport together (`{norm(bf.node)[:70]}`) and forgets them only afterwards: when one write fails none is forgotten, although the other writes completed (or still complete) - those commands are written again at the next wake", ctx.loc(f, bf.node))
+            continue
         g = fl.cfg
         if not fl.removes and loss_only:
             continue
